@@ -97,7 +97,10 @@ def _run_one(args: tuple[str, Any]) -> ShardResult | tuple[str, str]:
     modname, shard = args
     try:
         mod = sys.modules.get(modname) or __import__(modname, fromlist=["x"])
-        return mod.run_shard(shard)
+        r = mod.run_shard(shard)
+        for v in r.violations:
+            v["_shard"] = shard  # lets the parent re-run the whole shard if the single case does not reproduce alone
+        return r
     except BaseException:  # noqa: BLE001
         return ("INFRA", traceback.format_exc())
 
@@ -224,12 +227,27 @@ def run_check(mod: Any, tier: str, seed: int) -> int:
             sys.stdout.write("INFRA-ERROR while replaying a violation:\n" + traceback.format_exc())
             return 2
         if not any(a["sig"] == s for a in again):
-            sys.stdout.write(
-                f"INFRA-ERROR: violation {s!r} did not reproduce on replay (nondeterminism leak)\n"
-                + json.dumps(v, default=repr)[:2000]
-                + "\n"
-            )
-            return 2
+            # The case does not fail alone. Either nondeterminism leaked into the harness, or the implementation keeps
+            # state between cases (a module-level memo, a class attribute) and the failure needs the cases before it.
+            # Decide by re-running the whole shard, in this process, twice: a history-dependent violation fails both times.
+            shard = v.get("_shard")
+            rerun = []
+            if shard is not None:
+                for _ in range(2):
+                    try:
+                        rerun.append(any(x["sig"] == s for x in mod.run_shard(shard).violations))
+                    except Exception:  # noqa: BLE001
+                        rerun.append(False)
+            if not (rerun and all(rerun)):
+                sys.stdout.write(
+                    f"INFRA-ERROR: violation {s!r} did not reproduce on replay (nondeterminism leak)\n"
+                    + json.dumps({k: x for k, x in v.items() if k != "_shard"}, default=repr)[:2000]
+                    + "\n"
+                )
+                return 2
+            v = dict(v)
+            v["case"] = {"replay_shard": list(shard) if isinstance(shard, tuple) else shard, "tier": tier, "failing_case": v["case"],
+                         "note": "history-dependent: the case holds when run alone and fails after the cases that precede it in this shard"}
         if reported < MAX_REPORTED:
             p = _write_replay(prop, v)
             print(f"VIOLATION property={prop} replay={p}")
